@@ -10,7 +10,7 @@ CFG = dict(
               "gltf_bytesWritten_eq_len", "gltf_views_tile", "gltf_accessor_fits", "gltf_minmax",
               "gltf_decode_image", "gltf_decode_indices", "gltf_index_width",
               "gltf_alignment_counterexample", "gltf_alignment_partial"],
-    streams=[dict(name="c06", n=dict(quick=150, thorough=4000))],
+    streams=[dict(name="c06", n=dict(quick=150, thorough=15000))],
     trusted=T_COMMON + [
         "hand-written model PolyVerif/Model/Gltf.lean of formats/gltf/{writer,write,model,model_trackers}.go, tied by exact comparison of the parsed document, the buffer bytes and the GLB file bytes (stream c06)",
         "the harness's independent reader (own GLB framing, own structs + encoding/json, base64) and its canonical summary",
